@@ -96,6 +96,66 @@ def run(rep):
                                "class": "%s|%s|at%d" % (kind, h["call"], hi)})
                 break
     random_histories(rep, 12 if quick else 300)
+    independence(rep, 40 if quick else 600)
+
+
+# lines of every feature, among them lines on which a built-in rule matches but refuses its operands (impossible dates, unknown
+# units / currencies), lines that fail, and lines that bind variables: whatever they evaluate to, it must not depend on what the
+# calculator evaluated before
+POOL = ["1 + 2 * 3", "(4 - 6) / 4", "2k + 1M", "10 usd to eur", "$5 + 10%", "15% of 200", "20 is what % of 80", "20 is 10% of what", "10 + 5%",
+        "12 january 2021", "32 january", "30 february 2021", "31/4/2021", "29/2/2019", "22/12/1985", "1/1/2020 + 3 days", "28/2/2020 + 1 month", "today",
+        "tomorrow", "12/02/2020 to 11/04/2041", "10 days", "1 year 2 months 3 days", "90 minutes as hours", "3 weeks - 2 days", "11:30", "11:30 EST",
+        "11:30 EST to CET", "7 pm PST to UTC", "10:00 + 90 minutes", "9:00 to 17:30", "1664582400 to date", "1/1/2021 as unix", "0xFF to decimal",
+        "255 to hex", "0b101 + 1", "5 km to m", "1 inch to mm", "3 ft + 6 in", "1 kg to hg", "1 mm to mg", "2 gb to mb", "zorp = 5", "zorp + 1",
+        "blip = 10 usd", "blip * 2", "(", "3 + (", ")", "2 hours * 3 hours", "5 km * 2 kg", "", "   ", "# only a comment", "1 + 1 # comment",
+        "10 zzz", "5 foo bar", "june 31 2020", "february 30, 2021", "12 13 2021", "25:00", "10 meter to gallon", "8 / 0", "- - 3", "1.2.3%",
+        "100 try in usd", "1k usd", "3,5 + 1,5", "1.000 + 1", "1/12/2020 - 2 weeks", "28 feb 2020", "15 mart 2021", "10 gün", "100 tl"]
+
+
+def independence(rep, ncases):
+    """C04, first sentence: the result of a text is determined by configuration, text and date - the same line gives the same
+    result on a calculator that has evaluated any other lines before (the worker processes keep their calculator across cases)."""
+    rng = random.Random(rep.seed * 32452843 + 44)
+    base_case = [{"id": "base", "cfg": CFG, "fresh": True, "steps": [{"op": "execute", "lang": "en", "text": t}]} for t in POOL]
+    for i, c in enumerate(base_case):
+        c["id"] = "base%d" % i
+    bobs = run_harness_stable_day(base_case, "c04.base", jobs=4)
+    base = {}
+    for t, o in zip(POOL, bobs):
+        st = (o.get("steps") or [o])[0]
+        ss = proj.slots_of_step(st)
+        base[t] = ss[1] if ss and ss[0] is True else [{"k": st.get("outcome", "broken")}]
+    cases = []
+    for ci in range(ncases):
+        texts = [rng.choice(POOL) for _ in range(60)]
+        cases.append({"id": "ind%d" % ci, "cfg": CFG, "steps": [{"op": "execute", "lang": "en", "text": t} for t in texts]})
+    obs = run_harness_stable_day(cases, "c04.ind", jobs=4)
+
+    def same(a, b):
+        keys = ("k", "f", "cur", "u", "out", "msg", "d", "s", "day", "sod", "off", "zone")
+        return len(a) == len(b) and all(all(x.get(k) == y.get(k) for k in keys) for x, y in zip(a, b))
+    events, index = [], []
+    for case, o in zip(cases, obs):
+        events.append(reset_event(CFG, o.get("day0", 0)))
+        index.append(None)
+        steps = o.get("steps") or []
+        for k, stp in enumerate(case["steps"]):
+            st = steps[k] if k < len(steps) else o
+            ss = proj.slots_of_step(st)
+            slots = ss[1] if ss and ss[0] is True else [{"k": st.get("outcome", "broken")}]
+            ok = same(slots, base[stp["text"]])
+            # one opaque line per text (a multi-line text would be one line here: the pool has single lines only)
+            events.append({"ev": "execute", "lang": "en", "lines": [{"form": "opaque", "id": POOL.index(stp["text"])}], "status": True,
+                           "obs": [{"k": slots[0].get("k", "broken") if slots else "broken", "same_as_base": ok}]})
+            index.append((case, k, st, stp["text"]))
+            rep.case([case["id"], k], True)
+    bad = validate_trace(rep, events, "c04.ind")
+    for b in bad:
+        case, k, st, text = index[b["l"] - 1]
+        prev = [s["text"] for s in case["steps"][max(0, k - 5):k]]
+        rep.violation({"check": "trace", "form": "independence", "text": text, "after": prev, "cfg": CFG, "fresh_result": base[text], "observed": st,
+                       "feat": {"failure": "differs_from_fresh", "call": "execute"}, "class": "independence|%s" % text[:30]})
+    rep.sample({"independence_sequence": [s["text"] for s in cases[0]["steps"][:10]]})
 
 
 def random_histories(rep, nhist):
